@@ -28,6 +28,13 @@ func runC10(c *Ctx) {
 	respF := relCachePlugin + ".item.resp"
 	cno := c.fn(relCachePlugin, "", "copyNoOpt")
 
+	// ---------------------------------------------------------------- R7
+	c.rule("R7", "a stored message never contains an OPT record (dns.Copy shares the data of some EDNS0 options, and Pack writes into the OPT): the copy helper filters every section and loaded dump entries pass through it", 2)
+	checkCacheNeverStoresOpt(c)
+	if rd := c.fn(relCachePlugin, "Cache", "readDump"); rd != nil {
+		checkDumpReaderFields(c, rd)
+	}
+
 	// ---------------------------------------------------------------- R1
 	c.rule("R1", "the stored message is only ever Copy()'d or Pack()'d; only fresh messages are stored", 4)
 	for _, f := range fns {
